@@ -37,10 +37,10 @@ def c15(ctx):
         if prog.errors:
             raise frontend.AnalysisBroken('configuration %s does not type-check: %s' % (cfg_id(cfg), list(prog.errors.items())[0]))
         lab = _label(cfg)
-        out.append((lab, G.rule_G1(ctx, prog, lab)))
-        out.append((lab, G.rule_G2(ctx, prog, lab)))
-        out.append((lab, G.rule_G1nm(ctx, prog, lab)))
-    out.append(('configure.ac', G.rule_G4(ctx)))
+        ctx.add(out, lab, G.rule_G1, ctx, prog, lab)
+        ctx.add(out, lab, G.rule_G2, ctx, prog, lab)
+        ctx.add(out, lab, G.rule_G1nm, ctx, prog, lab)
+    ctx.add(out, 'configure.ac', G.rule_G4, ctx)
     return out
 
 
@@ -68,10 +68,10 @@ def c20(ctx):
         if prog.errors:
             raise frontend.AnalysisBroken('configuration %s does not type-check: %s' % (cfg_id(cfg), list(prog.errors.items())[0]))
         lab = _label(cfg)
-        out.append((lab, NC.rule_E3(ctx, prog, lab)))
-        out.append((lab, NC.rule_E3_census(ctx, prog, lab)))
-        out.append((lab, NC.rule_E3_third_party(ctx, prog, lab)))
-        out.append((lab, NC.rule_E4(ctx, prog, lab)))
+        ctx.add(out, lab, NC.rule_E3, ctx, prog, lab)
+        ctx.add(out, lab, NC.rule_E3_census, ctx, prog, lab)
+        ctx.add(out, lab, NC.rule_E3_third_party, ctx, prog, lab)
+        ctx.add(out, lab, NC.rule_E4, ctx, prog, lab)
     return out
 
 
@@ -106,12 +106,12 @@ def c11(ctx):
     for cfg in _configs(ctx):
         prog = _prog(ctx, cfg)
         lab = _label(cfg)
-        out.append((lab, R.rule_E1(ctx, prog, lab)))
-        out.append((lab, R.rule_E5(ctx, prog, lab)))
-        out.append((lab, CT.rule_F1(ctx, prog, lab)))
-        out.append((lab, AL.rule_D0(ctx, prog, lab)))
-        out.append((lab, AL.rule_D1(ctx, prog, lab)))
-        out.append((lab, AL.rule_D2(ctx, prog, lab)))
+        ctx.add(out, lab, R.rule_E1, ctx, prog, lab)
+        ctx.add(out, lab, R.rule_E5, ctx, prog, lab)
+        ctx.add(out, lab, CT.rule_F1, ctx, prog, lab)
+        ctx.add(out, lab, AL.rule_D0, ctx, prog, lab)
+        ctx.add(out, lab, AL.rule_D1, ctx, prog, lab)
+        ctx.add(out, lab, AL.rule_D2, ctx, prog, lab)
     return out
 
 
@@ -142,15 +142,16 @@ def c09(ctx):
     for cfg in _configs(ctx, extra=[dict(frontend.host_config(), sse2=0)]):
         prog = _prog(ctx, cfg)
         lab = _label(cfg)
-        out.append((lab, M.rule_C1(ctx, prog, lab)))
-        out.append((lab, M.rule_C2_callers(ctx, prog, lab)))
-        out.append((lab, M.rule_C3(ctx, prog, lab)))
-        out.append((lab, M.rule_C4(ctx, prog, lab)))
-        out.append((lab, CR.rule_A1(ctx, prog, lab)))
-        out.append((lab, CR.rule_A2(ctx, prog, lab)))
-        out.append((lab, AL.rule_D0(ctx, prog, lab)))
-        out.append((lab, AL.rule_D1(ctx, prog, lab)))
-        out.append((lab, AL.rule_D2(ctx, prog, lab)))
+        ctx.add(out, lab, M.rule_C1, ctx, prog, lab)
+        ctx.add(out, lab, M.rule_C2_callers, ctx, prog, lab)
+        ctx.add(out, lab, M.rule_C3, ctx, prog, lab)
+        ctx.add(out, lab, M.rule_C4, ctx, prog, lab)
+        ctx.add(out, lab, M.rule_S1, ctx, prog, lab)
+        ctx.add(out, lab, CR.rule_A1, ctx, prog, lab)
+        ctx.add(out, lab, CR.rule_A2, ctx, prog, lab)
+        ctx.add(out, lab, AL.rule_D0, ctx, prog, lab)
+        ctx.add(out, lab, AL.rule_D1, ctx, prog, lab)
+        ctx.add(out, lab, AL.rule_D2, ctx, prog, lab)
     return out
 
 
@@ -165,8 +166,9 @@ def c17(ctx):
     for cfg in _configs(ctx):
         prog = _prog(ctx, cfg)
         lab = _label(cfg)
-        out.append((lab, M.rule_C3(ctx, prog, lab)))
-        out.append((lab, M.rule_C3b(ctx, prog, lab)))
+        ctx.add(out, lab, M.rule_C3, ctx, prog, lab)
+        ctx.add(out, lab, M.rule_C3b, ctx, prog, lab)
+        ctx.add(out, lab, M.rule_S1, ctx, prog, lab)
     return out
 
 
@@ -181,9 +183,9 @@ def c13(ctx):
     for cfg in _configs(ctx, extra=[dict(frontend.host_config(), sse2=0)]):
         prog = _prog(ctx, cfg)
         lab = _label(cfg)
-        out.append((lab, M.rule_C1(ctx, prog, lab, only=ROWOPS, rule='C1-rowops')))
-        out.append((lab, B.rule_B1(ctx, prog, lab, only_funcs={'mzd_write_col_to_rows_blockd', 'mzd_col_swap_in_rows'})))
-        out.append((lab, CT.rule_F4(ctx, prog, lab)))
+        ctx.add(out, lab, M.rule_C1, ctx, prog, lab, only=ROWOPS, rule='C1-rowops')
+        ctx.add(out, lab, B.rule_B1, ctx, prog, lab, only_funcs={'mzd_write_col_to_rows_blockd', 'mzd_col_swap_in_rows'})
+        ctx.add(out, lab, CT.rule_F4, ctx, prog, lab)
     return out
 
 
@@ -197,10 +199,10 @@ def c08(ctx):
     for cfg in _configs(ctx, extra=[dict(frontend.host_config(), sse2=0)]):
         prog = _prog(ctx, cfg)
         lab = _label(cfg)
-        out.append((lab, M.rule_C1(ctx, prog, lab, only=MOVERS, rule='C1-movers')))
-        out.append((lab, M.rule_C4(ctx, prog, lab)))
-        out.append((lab, CT.rule_F2(ctx, prog, lab)))
-        out.append((lab, CR.rule_A1(ctx, prog, lab)))
+        ctx.add(out, lab, M.rule_C1, ctx, prog, lab, only=MOVERS, rule='C1-movers')
+        ctx.add(out, lab, M.rule_C4, ctx, prog, lab)
+        ctx.add(out, lab, CT.rule_F2, ctx, prog, lab)
+        ctx.add(out, lab, CR.rule_A1, ctx, prog, lab)
     return out
 
 
@@ -219,11 +221,11 @@ def c10(ctx):
     for cfg in cfgs:
         prog = _prog(ctx, cfg)
         lab = _label(cfg)
-        out.append((lab, P.rule_C5(ctx, prog, lab)))
-        out.append((lab, P.rule_C6(ctx, prog, lab)))
-        out.append((lab, M.rule_C1(ctx, prog, lab)))
-        out.append((lab, M.rule_C4(ctx, prog, lab)))
-        out.append((lab, CR.rule_A2(ctx, prog, lab)))
+        ctx.add(out, lab, P.rule_C5, ctx, prog, lab)
+        ctx.add(out, lab, P.rule_C6, ctx, prog, lab)
+        ctx.add(out, lab, M.rule_C1, ctx, prog, lab)
+        ctx.add(out, lab, M.rule_C4, ctx, prog, lab)
+        ctx.add(out, lab, CR.rule_A2, ctx, prog, lab)
     return out
 
 
@@ -255,33 +257,36 @@ def c01(ctx):
     for cfg in _configs(ctx, extra=[dict(frontend.host_config(), sse2=0)]):
         prog = _prog(ctx, cfg)
         lab = _label(cfg)
-        out.append((lab, B.rule_B1(ctx, prog, lab, only_funcs=MUL_FUNCS)))
-        out.append((lab, B.rule_B2(ctx, prog, lab)))
-        out.append((lab, B.rule_B3(ctx, prog, lab)))
-        out.append((lab, CR.rule_A1(ctx, prog, lab)))
-        out.append((lab, CT.rule_F1(ctx, prog, lab)))
-        out.append((lab, CT.rule_F2(ctx, prog, lab)))
-        out.append((lab, P.rule_C6(ctx, prog, lab)))
-        out.append((lab, M.rule_C2_callers(ctx, prog, lab)))
+        ctx.add(out, lab, B.rule_B1, ctx, prog, lab, only_funcs=MUL_FUNCS)
+        ctx.add(out, lab, B.rule_B2, ctx, prog, lab)
+        ctx.add(out, lab, B.rule_B3, ctx, prog, lab)
+        ctx.add(out, lab, CR.rule_A1, ctx, prog, lab)
+        ctx.add(out, lab, CT.rule_F1, ctx, prog, lab)
+        ctx.add(out, lab, CT.rule_F2, ctx, prog, lab)
+        ctx.add(out, lab, P.rule_C6, ctx, prog, lab)
+        ctx.add(out, lab, M.rule_C2_callers, ctx, prog, lab)
     return out
 
 
 @prop('C02', level='other',
       explanation=('Structural clauses of echelonisation: B1/B2 on the six mzd_process_rows Duff devices and the 2..6-table row processors '
-                   '(complete label sets, affine members); D1 (the echeloniser\'s tables are phase-matched to A); C2 (tables written only by '
+                   '(complete label sets, affine members); B5 (for every k in 1..64 the width of table j at the mzd_make_table call equals the width '
+                   'mzd_process_rowsN derives for table j, and the row offsets are the prefix sums - all 20 table/width pairs of both echelonisers, '
+                   'including the 4-, 5- and 6-table branches with non-zero remainder); D1 (the echeloniser\'s tables are phase-matched to A); C2 (tables written only by '
                    'mzd_make_table); E1 on the echelonisation functions.'),
-      not_decided='rank, RREF uniqueness, pivot search, density switch (value level); agreement of the k-split between builder and consumer is not yet decided')
+      not_decided='rank, RREF uniqueness, pivot search, density switch (value level)')
 def c02(ctx):
     from . import families as B, align as AL, masks as M, resources as R
     out = []
     for cfg in _configs(ctx, extra=[dict(frontend.host_config(), sse2=0)]):
         prog = _prog(ctx, cfg)
         lab = _label(cfg)
-        out.append((lab, B.rule_B1(ctx, prog, lab, only_funcs=ECH_FUNCS)))
-        out.append((lab, B.rule_B2(ctx, prog, lab, only_funcs=ECH_FUNCS | {'_mzd_combine'}, rule='B2-ech') if False else B.rule_B2(ctx, prog, lab)))
-        out.append((lab, AL.rule_D1(ctx, prog, lab, only_funcs=ECH_FUNCS)))
-        out.append((lab, M.rule_C2_callers(ctx, prog, lab)))
-        out.append((lab, R.rule_E1(ctx, prog, lab, only_funcs=ECH_FUNCS | {'mzd_echelonize_m4ri', 'mzd_echelonize_pluq', 'mzd_echelonize', 'mzd_top_echelonize_m4ri'}, rule='E1-ech')))
+        ctx.add(out, lab, B.rule_B1, ctx, prog, lab, only_funcs=ECH_FUNCS)
+        ctx.add(out, lab, B.rule_B2, ctx, prog, lab, only_funcs=ECH_FUNCS | {'_mzd_combine'}, rule='B2-ech') if False else B.rule_B2(ctx, prog, lab)
+        ctx.add(out, lab, B.rule_B5, ctx, prog, lab)
+        ctx.add(out, lab, AL.rule_D1, ctx, prog, lab, only_funcs=ECH_FUNCS)
+        ctx.add(out, lab, M.rule_C2_callers, ctx, prog, lab)
+        ctx.add(out, lab, R.rule_E1, ctx, prog, lab, only_funcs=ECH_FUNCS | {'mzd_echelonize_m4ri', 'mzd_echelonize_pluq', 'mzd_echelonize', 'mzd_top_echelonize_m4ri'}, rule='E1-ech')
     return out
 
 
@@ -296,11 +301,11 @@ def c03(ctx):
     for cfg in _configs(ctx, extra=[dict(frontend.host_config(), sse2=0)]):
         prog = _prog(ctx, cfg)
         lab = _label(cfg)
-        out.append((lab, B.rule_B1(ctx, prog, lab, only_funcs=PLE_FUNCS)))
-        out.append((lab, CT.rule_F8(ctx, prog, lab)))
-        out.append((lab, CT.rule_F4(ctx, prog, lab)))
-        out.append((lab, CT.rule_F1(ctx, prog, lab)))
-        out.append((lab, R.rule_E1(ctx, prog, lab, only_funcs=PLE_FUNCS | {'ple_table_init', 'ple_table_free'}, rule='E1-ple')))
+        ctx.add(out, lab, B.rule_B1, ctx, prog, lab, only_funcs=PLE_FUNCS)
+        ctx.add(out, lab, CT.rule_F8, ctx, prog, lab)
+        ctx.add(out, lab, CT.rule_F4, ctx, prog, lab)
+        ctx.add(out, lab, CT.rule_F1, ctx, prog, lab)
+        ctx.add(out, lab, R.rule_E1, ctx, prog, lab, only_funcs=PLE_FUNCS | {'ple_table_init', 'ple_table_free'}, rule='E1-ple')
     return out
 
 
@@ -315,11 +320,11 @@ def c04(ctx):
     for cfg in _configs(ctx, extra=[dict(frontend.host_config(), sse2=0)]):
         prog = _prog(ctx, cfg)
         lab = _label(cfg)
-        out.append((lab, CT.rule_F1(ctx, prog, lab)))
-        out.append((lab, CR.rule_A1(ctx, prog, lab)))
-        out.append((lab, B.rule_B1(ctx, prog, lab, only_funcs=TRSM_FUNCS)))
-        out.append((lab, AL.rule_D1(ctx, prog, lab, only_funcs={'_mzd_trsm_upper_left_russian', '_mzd_trsm_lower_left_russian'})))
-        out.append((lab, M.rule_C1(ctx, prog, lab, only=TRSM_FUNCS | {'_mzd_trsm_lower_left', '_mzd_trsm_upper_left', '_mzd_trsm_upper_right_base', '_mzd_trsm_lower_right_base'}, rule='C1-trsm')))
+        ctx.add(out, lab, CT.rule_F1, ctx, prog, lab)
+        ctx.add(out, lab, CR.rule_A1, ctx, prog, lab)
+        ctx.add(out, lab, B.rule_B1, ctx, prog, lab, only_funcs=TRSM_FUNCS)
+        ctx.add(out, lab, AL.rule_D1, ctx, prog, lab, only_funcs={'_mzd_trsm_upper_left_russian', '_mzd_trsm_lower_left_russian'})
+        ctx.add(out, lab, M.rule_C1, ctx, prog, lab, only=TRSM_FUNCS | {'_mzd_trsm_lower_left', '_mzd_trsm_upper_left', '_mzd_trsm_upper_right_base', '_mzd_trsm_lower_right_base'}, rule='C1-trsm')
     return out
 
 
@@ -335,12 +340,12 @@ def c18(ctx):
     for cfg in _configs(ctx):
         prog = _prog(ctx, cfg)
         lab = _label(cfg)
-        out.append((lab, I.rule_I1(ctx, prog, lab)))
-        out.append((lab, I.rule_I2(ctx, prog, lab)))
-        out.append((lab, I.rule_I3(ctx, prog, lab)))
-        out.append((lab, B.rule_B1(ctx, prog, lab, only_funcs=IO_FUNCS)))
-        out.append((lab, R.rule_E1(ctx, prog, lab, only_funcs=IO_FUNCS, rule='E1-io')))
-        out.append((lab, NC.rule_E3_third_party(ctx, prog, lab)))
+        ctx.add(out, lab, I.rule_I1, ctx, prog, lab)
+        ctx.add(out, lab, I.rule_I2, ctx, prog, lab)
+        ctx.add(out, lab, I.rule_I3, ctx, prog, lab)
+        ctx.add(out, lab, B.rule_B1, ctx, prog, lab, only_funcs=IO_FUNCS)
+        ctx.add(out, lab, R.rule_E1, ctx, prog, lab, only_funcs=IO_FUNCS, rule='E1-io')
+        ctx.add(out, lab, NC.rule_E3_third_party, ctx, prog, lab)
     return out
 
 
@@ -356,9 +361,9 @@ def c19(ctx):
     for cfg in _configs(ctx):
         prog = _prog(ctx, cfg)
         lab = _label(cfg)
-        out.append((lab, W.rule_C8(ctx, prog, lab)))
-        out.append((lab, B.rule_B7(ctx, prog, lab)))
-        out.append((lab, B.rule_B1(ctx, prog, lab, only_funcs=BIT_FUNCS)))
+        ctx.add(out, lab, W.rule_C8, ctx, prog, lab)
+        ctx.add(out, lab, B.rule_B7, ctx, prog, lab)
+        ctx.add(out, lab, B.rule_B1, ctx, prog, lab, only_funcs=BIT_FUNCS)
     return out
 
 
@@ -385,12 +390,12 @@ def c12(ctx):
         if prog.errors:
             continue
         lab = _label(cfg)
-        out.append((lab, J.rule_J4(ctx, prog, lab)))
-        out.append((lab, M.rule_C1(ctx, prog, lab, rule='J3-C1')))
-        out.append((lab, B.rule_B1(ctx, prog, lab, rule='J3-B1')))
-        out.append((lab, B.rule_B2(ctx, prog, lab, rule='J3-B2')))
-        out.append((lab, CT.rule_F1(ctx, prog, lab, rule='J3-F1')))
-        out.append((lab, CR.rule_A1(ctx, prog, lab, rule='J3-A1')))
+        ctx.add(out, lab, J.rule_J4, ctx, prog, lab)
+        ctx.add(out, lab, M.rule_C1, ctx, prog, lab, rule='J3-C1')
+        ctx.add(out, lab, B.rule_B1, ctx, prog, lab, rule='J3-B1')
+        ctx.add(out, lab, B.rule_B2, ctx, prog, lab, rule='J3-B2')
+        ctx.add(out, lab, CT.rule_F1, ctx, prog, lab, rule='J3-F1')
+        ctx.add(out, lab, CR.rule_A1, ctx, prog, lab, rule='J3-A1')
     return out
 
 
@@ -416,8 +421,8 @@ def c14(ctx):
         seen.add(cfg_id(cfg))
         prog = _prog(ctx, cfg)
         lab = _label(cfg)
-        out.append((lab, R.rule_E5(ctx, prog, lab)))
-        out.append((lab, P.rule_C5(ctx, prog, lab)))
+        ctx.add(out, lab, R.rule_E5, ctx, prog, lab)
+        ctx.add(out, lab, P.rule_C5, ctx, prog, lab)
         out.append((lab, R.rule_E1(ctx, prog, lab, only_funcs={'mzd_init', 'mzd_init_window', 'mzd_free', 'mzd_t_malloc', 'mzd_t_free', '_mzd_ple', '_mzd_pluq',
                                                                 'mzd_ple', 'mzd_pluq', '_mzd_apply_p_right_even', 'mzp_init', 'mzp_free', 'mzp_init_window',
                                                                 'mzp_free_window', 'mzp_copy', 'm4ri_mmc_malloc', 'm4ri_mmc_free', 'm4ri_mmc_cleanup'}, rule='E1-alloc')))
@@ -441,9 +446,9 @@ def c16(ctx):
     for cfg in cfgs:
         prog = _prog(ctx, cfg)
         lab = _label(cfg)
-        out.append((lab, H.rule_H1(ctx, prog, lab)))
-        out.append((lab, H.rule_H2(ctx, prog, lab)))
-        out.append((lab, H.rule_G3(ctx, prog, lab)))
-        out.append((lab, CR.rule_A1(ctx, prog, lab)))
-    out.append(('configure.ac', G.rule_G4(ctx)))
+        ctx.add(out, lab, H.rule_H1, ctx, prog, lab)
+        ctx.add(out, lab, H.rule_H2, ctx, prog, lab)
+        ctx.add(out, lab, H.rule_G3, ctx, prog, lab)
+        ctx.add(out, lab, CR.rule_A1, ctx, prog, lab)
+    ctx.add(out, 'configure.ac', G.rule_G4, ctx)
     return out
